@@ -252,6 +252,9 @@ func (c *ClientChannel) FinishSession(ctx context.Context) (*Session, error) {
 
 	ses, err := c.receiveSessionFromServer(ctx)
 	if err != nil {
+		// The session could not be finished gracefully (for instance, the server answer was lost
+		// with the connection). Do not leave the connection open, since the channel is discarded.
+		_ = c.Close()
 		return nil, fmt.Errorf("finish session: %w", err)
 	}
 
